@@ -1,5 +1,5 @@
 #!/bin/bash
 d=$1
 extra=""; [ -f "$d/demo_test.go" ] || extra="--skip-validate"
-/verif/bin/seedtest "$d" $extra > "$d/result.json" 2>&1
+${VERIF_ROOT:-/verif}/bin/seedtest "$d" $extra > "$d/result.json" 2>&1
 python3 /verif/dev/seedsummary.py "$d"
